@@ -116,7 +116,7 @@ def c_C_roundtrip(ctx, args):
     return None
 
 
-CHECKS = {'C_roundtrip': c_C_roundtrip, 'table_corr': c_table_corr, 'action': c_action, 'C_group': c_C_group, 'guards': c_guards}
+CHECKS = {'C_roundtrip': c_C_roundtrip, 'table_corr': c_table_corr, 'action': c_action, 'C_group': c_C_group, 'guards': c_guards, 'ctor_fresh': __import__('props.C17', fromlist=['c_ctor_fresh']).c_ctor_fresh}
 
 
 def run(ctx):
@@ -141,3 +141,6 @@ def run(ctx):
     do(ctx, 'C_group', [], nontrivial='C_group')
     for nm, qs in [(0, []), (0, [0, 1]), (1, [0, 1]), (4, [1, 2, 3]), (5, [0]), (5, [0, 1, 2]), (124, [0]), (130, [0]), (99, [0]), (100, [0, 1]), (111, [])]:
         do(ctx, 'guards', [nm, qs], nontrivial=('g', nm, str(qs)))
+    # every call of a named-gate constructor hands out a fresh table (users rotate / transform gate maps in place, a CliffordMap is a PauliList)
+    for sd in range(40):
+        do(ctx, 'ctor_fresh', ['np', 'named_gate', 2, 1000 + sd], nontrivial=('cf', sd))
